@@ -442,6 +442,9 @@ AG_IND_LISTS = [
     [["service", [0, 1], 1], ["call", [0, 1], 0], ["callsetup", [0, 1, 2, 3], 0], ["callheld", [0, 1, 2], 0], ["signal", [0, 1, 2, 3, 4, 5], 3], ["roam", [0, 1], 0], ["battchg", [0, 1, 2, 3, 4, 5], 5]],
     [["call", [0, 1], 1], ["callsetup", [0, 1, 2, 3], 2], ["battchg", [0, 2, 5], 2], ["signal", [3], 3]],
     [["battchg", [0, 1, 2, 3, 4, 5], 4], ["callheld", [0, 1, 2], 1], ["call", [0, 1], 0], ["callsetup", [0, 1, 2, 3], 1]],
+    # value sets with exactly one hole, with a hole at either end of the range, and ranges that do not start at 0
+    [["call", [0, 1], 0], ["callheld", [0, 2], 0], ["signal", [0, 1, 2, 3, 5], 3], ["battchg", [1, 3], 1]],
+    [["service", [1], 1], ["callsetup", [0, 2, 3], 0], ["signal", [2, 3, 4], 3], ["battchg", [0, 1, 3, 4, 5], 4], ["roam", [0, 1], 1]],
 ]
 AG_HFIND_LISTS = [[1], [2], [1, 2], [2, 1], [2, 3]]
 HOLD_OPS = ["0", "1", "1x", "2", "2x", "3", "4"]
